@@ -5,6 +5,7 @@ package meta
 import (
 	"bytes"
 	"fmt"
+	"os"
 	"sort"
 	"strings"
 
@@ -258,7 +259,9 @@ func firstWord(s string) string {
 // ---- the suite -------------------------------------------------------------------------------
 
 func Run(o *corr.Out) {
-	runCodec(o)
+	if os.Getenv("VERIF_PROP") != "C02" { // C02 uses the scoping families only
+		runCodec(o)
+	}
 	runScoping(o)
 	runEndToEnd(o)
 }
